@@ -160,11 +160,19 @@ def _q(res: Dict[str, Any], ctx: Ctx, neg: Any, what: str) -> None:
 # ---- (c) supporting concrete observation: the documented names exist in the three outputs
 import re as _re
 
-_WORD = _re.compile(r"[A-Z][a-z]*|[a-z]+")
+# words of a camel-case identifier as the repository's own converter tests document them (tests/test_compiler/test_util.py:
+# HTTPServer -> http_server, Snake42Case -> snake_42_case, Ipv6Address -> ipv_6_address, GPU3DModel -> gpu_3_d_model)
+_WORD = _re.compile(r"[A-Z]+(?=[A-Z][a-z])|[A-Z][a-z]+|[A-Z]+|[a-z]+|[0-9]+")
+
+
+def _camel(name: str) -> bool:
+    """identifiers for which that word rule is unambiguous: letters and digits only, starts with a capital, has a lower-case
+    letter (all-upper tokens with digits such as TI82 are kept whole by the converter and stay outside)"""
+    return bool(_re.fullmatch(r"[A-Z][A-Za-z0-9]*", name)) and any(ch.islower() for ch in name)
 
 
 def _letters_only(name: str) -> bool:
-    return bool(_re.fullmatch(r"[A-Za-z]+", name))
+    return bool(_re.fullmatch(r"[A-Za-z]+", name)) or _camel(name)
 
 
 def _upper_snake(names: List[str]) -> str:
@@ -226,7 +234,7 @@ def work_names(job: Tuple[Case, str]) -> Dict[str, Any]:
                 ch = chain + [d.name]
                 if all(_letters_only(n) for n in ch):
                     flat, us = "".join(ch), _upper_snake(ch)
-                    simple = all(_re.fullmatch(r"([A-Z][a-z]+)+", n) for n in ch)  # UPPER_SNAKE of acronym runs is the converter's business
+                    simple = all(_camel(n) for n in ch)
                     need("c:h", rf"\bstruct\s+{P}{flat}\s*\{{", f"struct {P}{flat}")
                     need("c-O:h", rf"\bstruct\s+{P}{flat}\s*\{{", f"struct {P}{flat}")
                     for fn in ("Encode", "Decode"):
@@ -244,7 +252,7 @@ def work_names(job: Tuple[Case, str]) -> Dict[str, Any]:
                             need("go", rf'json:"{f.name}[",]', f'JSON tag "{f.name}" in {flat}')
                 walk(d.nested, ch)
             elif isinstance(d, SEnum):
-                if all(_re.fullmatch(r"([A-Z][a-z]+)+", n) for n in chain) and _letters_only(d.name):
+                if all(_camel(n) for n in chain) and _letters_only(d.name):
                     for mname, _v in d.members:
                         if not _re.fullmatch(r"[A-Z]+(_[A-Z]+)*", mname):
                             continue
@@ -253,6 +261,14 @@ def work_names(job: Tuple[Case, str]) -> Dict[str, Any]:
                         need("go", rf"\b{full}\b", f"enum member {full}")
                         need("py", rf"\b{full}\b", f"enum member {full}")
 
+    from ..schema import Const as SConst
+
+    for d in cs.proto.defs:
+        if isinstance(d, SConst) and _re.fullmatch(r"[A-Z][A-Z0-9]*(_[A-Z0-9]+)*", d.name) and isinstance(d.value, int) and not isinstance(d.value, bool):
+            # constants appear under exactly their schema names; in C the upper-cased prefix is put directly in front
+            need("c:h", rf"#\s*define\s+{prefix.upper()}{d.name}\s+\(?{d.value}\b", f"constant macro {prefix.upper()}{d.name} = {d.value}")
+            need("go", rf"(?m)^\s*(?:const\s+)?{d.name}(?:\s+\w+)?\s*=\s*\(?{d.value}\b", f"Go constant {d.name} = {d.value}")
+            need("py", rf"(?m)^{d.name}(?:\s*:\s*\w+)?\s*=\s*\(?{d.value}\b", f"Python constant {d.name} = {d.value}")
     walk(cs.proto.defs, [])
     res["messages"] = len(case.messages)
     if missing:
@@ -273,7 +289,7 @@ def main() -> int:
     jobs = [(c, PREFIXES[i % 2] if q else p, cfgs[i % 2] if q else cfg) for i, c in enumerate(bases) for p in (PREFIXES[:1] if q else PREFIXES) for cfg in (cfgs[:1] if q else cfgs)]
     from ..families import f_naming
 
-    name_jobs = [(c, p) for c in f_shape_core() + [x for x in f_naming() if "prefix" not in x.tags] if "noc" not in c.tags for p in ("", "my_lib")]
+    name_jobs = [(c, p) for c in f_shape_core() + [x for x in f_naming() if "prefix" not in x.tags] if "noc" not in c.tags for p in ("", "my_lib", "Sh")]
     parts = [("c-name-prefix-invariance", work_prefix, jobs), ("api-name-templates", work_templates, [0]), ("documented-names", work_names, name_jobs)]
     meta = {
         "functions_encoded": cenc.C_FILES + ["compiler/bitproto/renderer/impls/go/formatter.py", "compiler/bitproto/renderer/impls/py/formatter.py"],
